@@ -5,8 +5,9 @@ CONSTANTS
   SizeLimits = {4, 7, 12}
   Gens = {1, 2, 3}
   WithSimple = TRUE
-  MaxEvents = 5
-  MaxCrashes = 0
+  MaxEvents = 6
+  MaxEventsM = 5
+  MaxCrashes = 1
   CLens = {1, 3}
   MLens = {1, 2, 3, 5}
   AsBuilt = TRUE
